@@ -20,13 +20,13 @@ for mx in (1, 2, 3):
     ]
 # the retry loop run for real: 10 consecutive failed attempts (interference or spurious CAS failure before each), not only one inductive step;
 # catches state the loop keeps outside the shared cells (e.g. an attempt counter that makes Add give up on a non-full buffer)
-for mx, tier in ((1, 'quick'),):   # capacity 2 at 10 attempts: not validated within this round's time, not registered
+for mx, tier in ((1, 'quick'), (2, 'thorough')):
     tag = 'c11_m%d_retry10' % mx; HARNESSES[tag] = h(mx); HARNESSES[tag]['model_defines'] = ['VERIF_CUSTOM_DELETE', 'RG_PRODUCER_CUT=11', 'RG_RETRY_INTERFERE_BETWEEN_ATTEMPTS']
     QUERIES.append(dict(name='producer_add_retry10_max%d' % mx, harness=tag, entry='h_producer_add', unwind=12, tier=tier, timeout=1200, solvers=['cadical', 'minisat'],
            shape='capacity %d (+1 slot); arbitrary invariant pre-state; up to 10 consecutive failed attempts of the Add loop executed; first attempt: arbitrary interference before each atomic op; attempts 2..10: other threads act (arbitrarily, any number of them) between attempts only, weak CAS may still fail spuriously; loop invariant re-checked at every back edge, path cut at the 11th attempt' % mx))
 QUERIES.append(dict(name='spinlock', harness='c11_m2', entry='h_spinlock', unwind=5, timeout=600,
                     shape='try_lock / lock+unlock from arbitrary flag state with arbitrary interference; lock(): bounded fairness (flag stays clear after 2 interferences)'))
-BOUNDS = ['capacity 1..3 (quick: 2)', 'bounded-retry query: capacity 1, at most 10 consecutive failed attempts of Add, interference inside attempts 2..10 restricted to the points between attempts', 'head/tail counters < 200 (64-bit wrap outside)', 'one Add / one Consume / one lock operation per query from an arbitrary invariant state (thread-modular induction over atomic steps)']
+BOUNDS = ['capacity 1..3 (quick: 2)', 'bounded-retry query: capacity 1 (thorough: also 2), at most 10 consecutive failed attempts of Add, interference inside attempts 2..10 restricted to the points between attempts', 'head/tail counters < 200 (64-bit wrap outside)', 'one Add / one Consume / one lock operation per query from an arbitrary invariant state (thread-modular induction over atomic steps)']
 OUTSIDE = ['memory orders weaker than sequential consistency', 'counter wrap-around after 2^64 operations', 'unbounded starvation of lock() (only bounded progress under a fairness assumption is checked)',
            'real interleavings are not enumerated: soundness rests on the rely/guarantee pairs, whose mutual consistency is itself a solver query (rg_consistency_*)']
 TRUSTED = ['rely/guarantee side conditions argued in DESIGN.md C11 (token uniqueness; a pending token never sits in a claimed slot)']
